@@ -678,6 +678,12 @@ class Tensor:
     def trace(self):
         return diag(self).sum()
 
+    def take(self, index):
+        return take(self, index)
+
+    def index_select(self, dim, index):
+        return index_select(self, dim, index)
+
     def numpy(self):
         raise NotEncodable('Tensor.numpy()')
 
@@ -970,7 +976,29 @@ def outer(a, b):
 ger = outer
 
 
-def matmul(a, b):
+def take(t, index):
+    """torch.take: index into the logically flattened (row-major) input."""
+    flat = t.a.reshape(-1)
+    idx = index.a if isinstance(index, Tensor) else np.asarray(index)
+    if (idx < -flat.size).any() or (idx >= flat.size).any():
+        raise IndexError('take(): index out of range')
+    return t._new(np.array(flat[idx], dtype=t.a.dtype, copy=True))
+
+
+def index_select(t, dim, index):
+    idx = index.a if isinstance(index, Tensor) else np.asarray(index)
+    return t._new(np.take(t.a, idx, axis=dim))
+
+
+def matmul(a, b, out=None):
+    if out is not None:
+        r = matmul(a, b)
+        if tuple(out.a.shape) != tuple(r.a.shape):
+            out.a = r.a.copy()
+        else:
+            out.a[...] = r.a
+        out._bump()
+        return out
     if not isinstance(a, Tensor) or not isinstance(b, Tensor):
         return NotImplemented
     if a.a.ndim == 0 or b.a.ndim == 0:
